@@ -22,8 +22,13 @@ func parseTokFields(s string) []frac.VerifField {
 		return nil
 	}
 	var res []frac.VerifField
-	for i, f := range strings.Split(s, "|") {
-		vf := frac.VerifField{Name: fmt.Sprintf("f%03d", i)}
+	parts := strings.Split(s, "|")
+	pad := ""
+	if len(parts) > 100 { // long names: the token TABLE then needs several 16 KiB blocks
+		pad = strings.Repeat("_", 40)
+	}
+	for i, f := range parts {
+		vf := frac.VerifField{Name: fmt.Sprintf("f%03d%s", i, pad)}
 		if f != "-" {
 			for _, t := range strings.Split(f, ",") {
 				vf.Tokens = append(vf.Tokens, unx(t))
@@ -51,7 +56,7 @@ func fmtTokFields(fs [][][]byte) string {
 }
 
 func fieldIndex(name string) int {
-	n, _ := strconv.Atoi(strings.TrimPrefix(name, "f"))
+	n, _ := strconv.Atoi(strings.TrimRight(strings.TrimPrefix(name, "f"), "_"))
 	return n
 }
 
@@ -145,9 +150,67 @@ func tokensTableImpl(dir string, fields []frac.VerifField) (res string) {
 	return "ok entries=" + a + " vals=" + vh.JoinStrs(vals, ",")
 }
 
+// tokensTableBytesImpl writes tokens + token table and returns the raw bytes of every token TABLE block and whether the
+// table re-loaded from the file equals the one kept from sealing.
+func tokensTableBytesImpl(dir string, fields []frac.VerifField) (res string) {
+	defer func() {
+		if r := recover(); r != nil {
+			res = "panic"
+		}
+	}()
+	f, err := os.CreateTemp(dir, "tokb-*.index")
+	if err != nil {
+		return "err " + err.Error()
+	}
+	defer func() { f.Close(); os.Remove(f.Name()) }()
+	w, err := frac.VerifNewIndexWriter(f)
+	if err != nil {
+		return "err " + err.Error()
+	}
+	if err := w.WriteInfo(); err != nil {
+		return "err " + err.Error()
+	}
+	tt, p, err := w.WriteTokens(fields, 1)
+	if p != "" || err != nil {
+		return "panic"
+	}
+	if err := w.Finish(); err != nil {
+		return "err " + err.Error()
+	}
+	reader := disk.NewIndexReader(readLimiter, f, cache.NewCache[[]byte](nil, nil))
+	i := uint32(1)
+	for { // skip the token blocks
+		h, err := reader.GetBlockHeader(i)
+		i++
+		if err != nil || h.Len() == 0 {
+			break
+		}
+	}
+	var blocks []string
+	for {
+		h, err := reader.GetBlockHeader(i)
+		if err != nil || h.Len() == 0 {
+			break
+		}
+		data, _, err := reader.ReadIndexBlock(i, nil)
+		if err != nil {
+			return "err " + err.Error()
+		}
+		blocks = append(blocks, vh.Hex(data))
+		i++
+	}
+	loaded := token.NewTableLoader("verif", &reader, cache.NewCache[token.Table](nil, nil)).Load()
+	return "ok " + vh.JoinStrs(blocks, "|") + " loaded=" + vh.B(fmtTable(tt) == fmtTable(loaded))
+}
+
 func tokensAnswer(line, tmp string) (string, bool) {
 	f := strings.Fields(line)
 	switch {
+	case len(f) == 5 && f[0] == "tokens.tablebytes":
+		if f[1] != "16384" || f[2] != "1" {
+			return "err fixed block size / first block index", true
+		}
+		return tokensTableBytesImpl(tmp, parseTokFields(f[4])), true
 	case len(f) == 4 && f[0] == "tokens.gen":
 		if f[1] != "new" || f[2] != "16384" {
 			return "err only the current code with consts.RegularBlockSize can be run", true
@@ -192,6 +255,7 @@ func runTokenChannels(o vh.Opts, rng *vh.RNG, rep *vh.Report, tmp string) {
 	}
 	gen := vh.NewChannel("tokens.gen", "getTokensBlocksGenerator vs genTokenBlocks bsNew 16384: EXHAUSTIVE over fields of 1..4 tokens with sizes from {1, 5000, 9000, 17000} (thorough; quick samples 1/4) so that blocksCount is below, equal to and above the token count (the blockSize = 0 shape of the defect fixed in fb6d41d), two-field combinations, plus random dictionaries; compared block by block (field, isStartOfField, totalSizeOfField, startTID, tokens); non-trivial = some field is split into >= 2 blocks")
 	tab := vh.NewChannel("tokens.table", "writeTokensBlocks + writeTokenTableBlocks on a real index file, token.TableLoader (table re-loaded from the file must equal the table kept from sealing), BlockLoader + GetEntryByTID + GetValByTID for every tid vs writeTokens / getValByTID: table entries (StartIndex, StartTID, BlockIndex, ValCount, MinVal, MaxVal) and the value of every tid; same inputs; non-trivial = >= 2 physical blocks or >= 2 entries in one block")
+	tbb := vh.NewChannel("tokens.tablebytes", "writeTokenTableBlocks (raw bytes of every token TABLE block of a real index file) and token.TableLoader (re-loaded table = table kept from sealing) vs packFieldBlock / writeTable / loadTable / keptField; same inputs as tokens.table incl. hundreds of small fields with long names (several table blocks over shared physical token blocks); non-trivial = >= 2 table blocks")
 	sizes := []int{1, 5000, 9000, 17000}
 	var layouts [][][][]byte
 	idx := 0
@@ -235,10 +299,30 @@ func runTokenChannels(o vh.Opts, rng *vh.RNG, rep *vh.Report, tmp string) {
 		}
 		layouts = append(layouts, fs)
 	}
+	nMany := 0
+	for i := 0; i < o.Pick(3, 12); i++ { // many small fields: multi-block token table over shared physical token blocks
+		var fs [][][]byte
+		nf := rng.Range(250, 600)
+		for f := 0; f < nf; f++ {
+			var toks [][]byte
+			for t := rng.Range(1, 3); t > 0; t-- {
+				toks = append(toks, mk(int(rng.U64()%1000), rng.Range(1, 6)))
+			}
+			if i%3 == 2 && f == nf/2 {
+				toks = append(toks, mk(7, 9000), mk(8, 9000)) // a big field in the middle forces block changes
+			}
+			fs = append(fs, sortedToks(toks))
+		}
+		layouts = append(layouts, fs)
+		nMany++
+	}
 	for li, fs := range layouts {
 		kind := "exhaustive"
 		if li >= nExh {
 			kind = "random"
+		}
+		if li >= len(layouts)-nMany {
+			kind = "many-fields-multi-block-table"
 		}
 		line := "tokens.gen new 16384 " + fmtTokFields(fs)
 		impl, _ := tokensAnswer(line, dir)
@@ -253,10 +337,19 @@ func runTokenChannels(o vh.Opts, rng *vh.RNG, rep *vh.Report, tmp string) {
 		line = "tokens.table 16384 1 " + fmtTokFields(fs)
 		impl, _ = tokensAnswer(line, dir)
 		tab.Add(line, impl, strings.Count(impl, ";") >= 1, kind)
+		pad := 0
+		if len(fs) > 100 {
+			pad = 40
+		}
+		line = fmt.Sprintf("tokens.tablebytes 16384 1 %d %s", pad, fmtTokFields(fs))
+		impl, _ = tokensAnswer(line, dir)
+		tbb.Add(line, impl, strings.Count(impl, "|") >= 1, kind)
 	}
 	gen.Exhaustive, tab.Exhaustive = o.Thorough(), o.Thorough()
+	tbb.Exhaustive = o.Thorough()
 	rep.AddChannel(gen, o.Driver)
 	rep.AddChannel(tab, o.Driver)
+	rep.AddChannel(tbb, o.Driver)
 
 	sel := vh.NewChannel("tokens.select", "token.Table.SelectEntries vs selectEntries: EXHAUSTIVE over hints of length 0..2 over {a,b}, MinVal and 1..3 sorted MaxVals of length 0..3 over {a,b} (thorough; quick samples 1/3), plus random byte strings; answer = the selected entry range; non-trivial = hint non-empty and >= 2 entries")
 	var words []string
